@@ -36,6 +36,7 @@ type CoinsArg struct {
 	Kind string // "E" empty, "B" one coin of the base denom, "X" anything else
 	Amt  int64
 	Raw  string // for X: e.g. "5atom" or "5atom,3stake"
+	Big  string // for B: decimal amount beyond int64 (overrides Amt)
 }
 
 type Op struct {
@@ -86,6 +87,9 @@ func coinsLine(c CoinsArg) string {
 	case "E":
 		return "E"
 	case "B":
+		if c.Big != "" {
+			return "B " + c.Big
+		}
 		return fmt.Sprintf("B %d", c.Amt)
 	default:
 		return "X"
@@ -97,6 +101,13 @@ func (c CoinsArg) coins() sdk.Coins {
 	case "E":
 		return sdk.Coins{}
 	case "B":
+		if c.Big != "" {
+			n, ok := sdk.NewIntFromString(c.Big)
+			if !ok {
+				panic("bad big amount " + c.Big)
+			}
+			return sdk.Coins{sdk.Coin{Denom: denom, Amount: n}}
+		}
 		return sdk.Coins{sdk.Coin{Denom: denom, Amount: sdk.NewInt(c.Amt)}}
 	default:
 		cs, err := sdk.ParseCoins(c.Raw)
